@@ -12,6 +12,12 @@ TAGS = ["c02", "gen", "hs13"]
 RUN_TARGET = "theories/Hs/Hs13Run.vo"
 SITE = "internal/handshake fsm13.go (DTLS 1.3 handshake state machine)"
 MAX_EVENTS = 6000
+# the DTLS 1.3 analogue of F17: any stale handshake fragment (message_seq below the reassembly sequence), whatever its
+# type, counts as a retransmission by the peer and makes the reply-only HelloRetryRequest flight be sent again
+NOT_CH = "HelloRetryRequest sent in response to a datagram that is not a ClientHello"
+SITE_NOT_CH = ("internal/handshake/fsm13.go transitionAfterACK / internal/fragmentbuffer pushHandshakeFragments "
+               "(any stale handshake fragment counts as a peer retransmission)")
+SIG_NOT_CH = {"monitor": NOT_CH, "version": 13}
 
 
 # ---------------------------------------------------------------- traces -> Coq terms
@@ -56,6 +62,8 @@ def case_term(c):
             outs[e["side"]].append("(%d, %s)" % (e["t"], dgram_term(e.get("recs") or [])))
         elif e["ev"] == "deliver":
             moves.append("Deliver %s %d %d" % (cbool(side_of[e["idx"]] == "client"), kidx[e["idx"]], e["t"]))
+        elif e["ev"] == "inject":
+            moves.append("Inject %s %s %d" % (cbool(e["side"] == "client"), dgram_term(e.get("recs") or []), e["t"]))
     ce = c["cdone"] and c["cerr"] == "ok"
     se = c["sdone"] and c["serr"] == "ok"
     return "(%s, %s, %d, %s, %s, %s, %s)" % (cfg_term(c), clist(moves), c["tdone"], clist(outs["client"]),
@@ -88,12 +96,14 @@ def established(c):
 
 
 def nontrivial(c):
-    return bool(c["mask"] and any(a != "pass" for a in c["mask"])) or bool(c.get("silence_to")) or bool(c.get("reverse_to"))
+    return (bool(c["mask"] and any(a != "pass" for a in c["mask"])) or bool(c.get("silence_to")) or bool(c.get("reverse_to"))
+            or bool(c.get("inject")))
 
 
 def case_key(c):
     return (c["variant"], tuple(c["mask"] or []), c["interval_ms"], c["no_backoff"], c.get("silence_from"),
-            c.get("silence_until"), c.get("silence_to"), c.get("reverse_to"))
+            c.get("silence_until"), c.get("silence_to"), c.get("reverse_to"),
+            tuple((i["at"], i["to"], i["ht"], i["ms"], i["fo"], i["fl"], i["tl"], i["seq"]) for i in (c.get("inject") or [])))
 
 
 def replay_of(c):
@@ -103,17 +113,20 @@ def replay_of(c):
             "VERIF_DBG": "%s|%s|%d|%d|%d|%d|%s" % (c["variant"], ",".join(c["mask"] or []), c["interval_ms"],
                                                  1 if c["no_backoff"] else 0, c.get("silence_from") or 0,
                                                  c.get("silence_until") or 0, c.get("silence_to") or ""),
-            "reverse_to": c.get("reverse_to") or "", "case": slim(c)}
+            "reverse_to": c.get("reverse_to") or "",
+            "VERIF_DBG_INJECT": ",".join("%d:%s:%d:%d:%d:%d:%d:%d" % (i["at"], i["to"], i["ht"], i["ms"], i["fo"], i["fl"], i["tl"], i["seq"])
+                                         for i in (c.get("inject") or [])),
+            "case": slim(c)}
 
 
 def slim(c):
     d = {k: c.get(k) for k in ("variant", "mask", "interval_ms", "no_backoff", "silence_from", "silence_until", "silence_to",
-                               "reverse_to", "cdone", "sdone", "cerr", "serr", "tdone", "tfault", "data_ok", "mtu", "notes")}
+                               "reverse_to", "inject", "cdone", "sdone", "cerr", "serr", "tdone", "tfault", "data_ok", "mtu", "notes")}
     evs = []
     for e in c["events"][:160]:
         x = {k: e[k] for k in ("ev", "idx", "side", "t") if k in e}
-        if e["ev"] == "emit":
-            x["cause"] = e["cause"]
+        if e["ev"] in ("emit", "inject"):
+            x["cause"] = e.get("cause", "")
             x["recs"] = [(r["k"], r["e"], r["ht"], r["ms"], r["fo"], r["fl"]) if r["k"] == "hs" else
                          (r["k"], r["e"], [tuple(f) for f in (r.get("ackfr") or [])]) for r in (e.get("recs") or [])]
         evs.append(x)
@@ -300,7 +313,10 @@ def monitor_cookie(c):
             if e["cause"] == "timer" and (e.get("recs") or []):
                 return "HelloRetryRequest sent by the retransmission timer at %d ms" % e["t"]
             if e.get("recs") and (last_delivered is None or not any(r["k"] == "hs" and r["ht"] == 1 for r in last_delivered)):
-                return "HelloRetryRequest at %d ms is not a response to a datagram carrying a ClientHello" % e["t"]
+                return NOT_CH + " (at %d ms; the datagram carried %s)" % (
+                    e["t"], [(r["k"], r["e"], r.get("ht"), r.get("ms"), r.get("fo"), r.get("fl")) for r in (last_delivered or [])])
+        elif e["ev"] == "inject" and e["side"] == "server":
+            last_delivered = e.get("recs") or []
         elif e["ev"] == "deliver" and e["side"] == "server":
             last_delivered = emitted.get(e["idx"], [])
             for r in last_delivered:
@@ -371,6 +387,15 @@ def _leg(chk, prop, leg, test, seed_off, monitor, monitor_name, rule, regenerate
     for c in cases:
         m = monitor(c, F.get(c["variant"], 1)) if monitor is monitor_discipline else monitor(c)
         if m:
+            if m.startswith(NOT_CH):
+                if NOT_CH in reported:
+                    continue
+                reported.add(NOT_CH)
+                found = chk.finding(SITE_NOT_CH, SIG_NOT_CH,
+                                    "%s [variant %s, injected %s, silence to %s until %s]" % (
+                                        m, c["variant"], c.get("inject"), c.get("silence_to") or "-", c.get("silence_until")),
+                                    replay_of(c)) or found
+                continue
             key = (c["variant"], re.split(r" at \d| gaps|: client=| \d+ ms", m)[0][:80])
             if key in reported:
                 continue
